@@ -26,6 +26,20 @@ WIDE = {"C01", "C02", "C06", "C08", "C09", "C10", "C11", "C12", "C13", "C15", "C
 MULTI = {"C01", "C02", "C06", "C08", "C09", "C11", "C12", "C13", "C15", "C18"}
 LONG = {"C01", "C06", "C08", "C09", "C11"}
 VOUCHER = {"C01", "C02", "C13", "C15", "C18", "C20"}
+EXTRA_TEXT = {
+ "C04": "Every request, and every ordered pair, also with a failing second message in the first request's transaction (the queued request must vanish with the rolled-back transaction).",
+ "C06": "Chain upgrade op: the stablestake store migration registered for the previous consensus version, run the way an upgrade handler runs it.",
+ "C07": "Engine-K op upgrade(stablestake_prev_version): the registered store migration must not move the vault value or the share supply.",
+ "C10": "Phase rolled-back-params: every parameter change of both position modules EXECUTED AND DISCARDED (failed multi-message proposal / simulation) from roots R1 and R21 (strict safety factors), followed by opens at every leverage and third-party close requests: gates must read the committed parameters.",
+ "C11": "The tradeshield route to a perpetual position (limit-open order executed by a third party) is part of the alphabet.",
+ "C13": "The module-params phase also sweeps the amm parameters, followed by single-sided joins.",
+ "C15": "Phase upgrade: the amm module's registered balance-matching store migration, run the way an upgrade handler runs it, on pools whose accounts also hold a token that is not a pool asset.",
+ "C16": "Isolation clause over store iteration AND point lookups: what the keeper answers on a state is identical before and after every discarded branch.",
+ "C17": "Ground 'the sender holds every lesser role governance can grant' (amm pool-creator list, price feeder, whitelisted in both position modules): all governance-only types tried with that sender as authority.",
+ "C18": "Phase aliased-assets (root R22): an outsider registered second asset-profile entries naming every fixture asset with other decimals, ELYS crashed below 0.5 USDC; outages, fee conversions, claims and position activity from there.",
+ "C19": "Serving-node variant: every trace once more on a node that simulates and CheckTx'es each transaction before its block; process-memory traces (a weighted pool whose balance ratio is exactly 2, twice, with every restart point).",
+ "C20": "One execute request per pending order (each its own transaction) next to the all-orders request.",
+}
 ALL = ["C%02d" % i for i in range(1, 21)]
 
 def main():
@@ -46,6 +60,8 @@ def main():
             text += " Second venue (root R19): a second oracle pool enabled for leveraged LP (second accounted pool, second perpetual pool, trading asset uelys) with open positions of both modules in both venues; every pair of a 40-op alphabet over both venues (swaps, routes through both oracle pools, joins, exits, opens, closes, price moves of either asset, third-party close requests over all positions)."
         if pid in MULTI:
             text += " Multi-message transactions: every ordered pair of a same-signer op set as ONE signed transaction, and every op followed by a message that fails at delivery (the whole transaction must roll back), then one more block."
+        if pid in EXTRA_TEXT:
+            text += " " + EXTRA_TEXT[pid]
         if pid in VOUCHER:
             text += " Voucher venue (root R23): the fixture's fourth asset is an IBC voucher with 18 decimals whose asset-profile base denom differs from its denom; a constant-product pool of it whose price the ops push far from the oracle's, pending spot orders in it, a gas fee paid in it."
         if pid in LONG:
